@@ -215,6 +215,14 @@ end T51moist
 section T52
 variable {K M N : Type} [Field K] [AddCommGroup M] [Module K M] [CommRing N] [Algebra K N]
 
+/-- **T5.2 (side condition).**  Admissible level sets (`boundaries[0] = 0`, `boundaries[-1] = 1`, as
+ `SigmaCoordinates.__init__` enforces) have thicknesses that sum to one — the hypothesis `h1` of
+ `sigma_dot_all_boundaries` (re-export of `Dino.Balance.thickness_sum_one`, so that it is audited with the
+ property theorems) -/
+theorem thickness_sum_one {K : Type} [Field K] (b : List K) (hb : b ≠ []) (h0 : b.head hb = 0)
+    (h1 : b.getLast hb = 1) : (Sigma.thickness b).sum = 1 :=
+  Dino.Balance.thickness_sum_one b hb h0 h1
+
 /-- **T5.2 (σ̇ on all boundaries).**  For every state and every level set whose thicknesses sum to one
  (`thickness_sum_one`: boundaries from 0 to 1), the two vertical velocities of
  `compute_diagnostic_state`, placed between the two zeros that `centered_vertical_advection` assumes,
@@ -326,7 +334,39 @@ theorem zonal_flow_total [BEq K] (L : LinLaws eq.ops) (n : ℕ) (hn : 0 < n)
   simp only [State.add, Col.add, List.zipWith_replicate, Nat.min_self, add_zero, zipTracers_const,
     zeroTendency]
 
-/-- **Zonal flows in gradient-wind balance are steady** (dry classes). -/
+/-- **A zonal flow is steady iff its discrete divergence residual vanishes** (dry classes).  The residual is
+ the model's own quantity `zonalDivExplicit + zonalDivImplicit` of `zonal_flow_total` (the discrete form of the
+ meridional gradient-wind balance); that it vanishes for a given flow on a given grid is NOT proved here: for
+ solid-body rotation it is computed on the toy sphere (example below) and tested on real grids (`C05.py`,
+ probe `solid-body`). -/
+theorem zonal_flow_steady_iff_residual_zero [BEq K] (L : LinLaws eq.ops) (n : ℕ) (hn : 0 < n)
+    (hb : eq.vert.boundaries.length = n + 1) (hlc : eq.vert.logCenters.length = n)
+    (hT : eq.referenceTemperature.length = n) (ζ T' : List M) (hζ : ζ.length = n) (hT' : T'.length = n)
+    (lnp : M) (tr : List (String × List M)) (htr : ∀ kv ∈ tr, kv.2.length = n)
+    (Z : ZonalFlow eq.ops ζ lnp)
+    (hzB : ∀ b ∈ zonalB eq ζ (Col.smul eq.phys.R (T'.map eq.ops.toNodal))
+      (eq.ops.toNodal (eq.ops.cosLatGrad false lnp).2), eq.ops.dDlon b = 0)
+    (hzT : ZonalFlux eq ζ (T'.map eq.ops.toNodal))
+    (hztr : ∀ kv ∈ tr, ZonalFlux eq ζ (kv.2.map eq.ops.toNodal)) :
+    State.add (eq.explicitTerms (zonalState ζ T' lnp tr)) (eq.implicitTerms (zonalState ζ T' lnp tr))
+        = zeroTendency n tr ↔
+      Col.add
+        (List.zipWith (zonalDivExplicit eq)
+          (zonalB eq ζ (Col.smul eq.phys.R (T'.map eq.ops.toNodal))
+            (eq.ops.toNodal (eq.ops.cosLatGrad false lnp).2)) (ζ.map (zonalU eq.ops)))
+        (zonalDivImplicit eq T' lnp) = List.replicate n 0 := by
+  rw [zonal_flow_total eq L n hn hb hlc hT ζ T' hζ hT' lnp tr htr Z hzB hzT hztr]
+  constructor
+  · intro h
+    exact congrArg State.divergence h
+  · intro h
+    rw [h]
+    rfl
+
+/-- the "if" direction of `zonal_flow_steady_iff_residual_zero`: **a zonal flow whose discrete divergence
+ residual vanishes is steady** (dry classes).  The hypothesis `hbal` IS the vanishing of the model's divergence
+ tendency (`zonalDivExplicit + zonalDivImplicit = 0`), not an analytic gradient-wind relation: the theorem adds
+ to `zonal_flow_total` only that every OTHER component of the tendency is zero. -/
 theorem zonal_flow_steady [BEq K] (L : LinLaws eq.ops) (n : ℕ) (hn : 0 < n)
     (hb : eq.vert.boundaries.length = n + 1) (hlc : eq.vert.logCenters.length = n)
     (hT : eq.referenceTemperature.length = n) (ζ T' : List M) (hζ : ζ.length = n) (hT' : T'.length = n)
@@ -875,6 +915,124 @@ example :
     (by simp) ⟨?_, ?_⟩ (fun b _ => rfl) (fun a _ => rfl) (fun kv _ a _ => rfl) ?_
   · decide +kernel
   · decide +kernel
+  · decide +kernel
+
+/-! ### non-vacuity of the ZONALITY hypotheses: a toy sphere WITH longitude (`d_dlon ≠ 0`)
+
+Fields `a(μ) + c(μ) cos λ + s(μ) sin λ`, each of `a, c, s` a quadratic in `μ` (the three-mode toy sphere in
+latitude), on the product grid of the three latitudes with the four longitudes `λ = 0, π/2, π, 3π/2`
+(12 nodes).  `d_dlon (a, c, s) = (0, s, −c)` is not zero; the latitudinal operators act on `a, c, s`
+separately (the `−m² sec²θ` part of the Laplacian of the `m = 1` modes is omitted: the zonal-flow theorems
+use only linearity of the operators).  On this grid `ZonalFlow`, `ZonalFlux` and the `d_dlon = 0`
+hypotheses are no longer `rfl`: they hold for the zonal state and FAIL for a state with a wave-1 component. -/
+abbrev ML := Q3 × Q3 × Q3
+abbrev NL := Q3 × Q3 × Q3 × Q3
+
+/-- latitudinal operators of the three-mode toy sphere (radius 1) -/
+def latT (a : Q3) : Q3 := (a.1 - 3 / 5 * a.2.1 + 9 / 25 * a.2.2, a.1, a.1 + 3 / 5 * a.2.1 + 9 / 25 * a.2.2)
+def latTm (x : Q3) : Q3 := (x.2.1, 5 / 6 * (x.2.2 - x.1), 25 / 9 * ((x.1 + x.2.2) / 2 - x.2.1))
+def latD (a : Q3) : Q3 := (a.2.1, 2 * a.2.2, -a.2.1)
+def latS (a : Q3) : Q3 := (a.2.1, 2 * a.2.2 - 2 * a.1, -3 * a.2.1)
+def latL (a : Q3) : Q3 := (2 * a.2.2, -2 * a.2.1, -6 * a.2.2)
+def latIL (a : Q3) : Q3 := (a.2.2 / 18, -a.2.1 / 2, -a.2.2 / 6)
+
+def toyLonOps : HOps ℚ ML NL :=
+  { toNodal := fun x => (latT x.1 + latT x.2.1, latT x.1 + latT x.2.2, latT x.1 - latT x.2.1, latT x.1 - latT x.2.2)
+    toModal := fun y => (latTm ((1 / 4 : ℚ) • (y.1 + y.2.1 + y.2.2.1 + y.2.2.2)),
+      latTm ((1 / 2 : ℚ) • (y.1 - y.2.2.1)), latTm ((1 / 2 : ℚ) • (y.2.1 - y.2.2.2)))
+    dDlon := fun x => (0, x.2.2, -x.2.1)
+    cosLatDDlat := fun x => (latD x.1, latD x.2.1, latD x.2.2)
+    secLatDDlatCos2 := fun x => (latS x.1, latS x.2.1, latS x.2.2)
+    laplacian := fun x => (latL x.1, latL x.2.1, latL x.2.2)
+    inverseLaplacian := fun x => (latIL x.1, latIL x.2.1, latIL x.2.2)
+    clip := fun x => x
+    lproj := fun _ x => x
+    nL := 3
+    lapEig := fun l => -(l * (l + 1) : ℚ)
+    cosLat := ((4 / 5, 1, 4 / 5), (4 / 5, 1, 4 / 5), (4 / 5, 1, 4 / 5), (4 / 5, 1, 4 / 5))
+    sec2Lat := ((25 / 16, 1, 25 / 16), (25 / 16, 1, 25 / 16), (25 / 16, 1, 25 / 16), (25 / 16, 1, 25 / 16))
+    sinLat := ((-3 / 5, 0, 3 / 5), (-3 / 5, 0, 3 / 5), (-3 / 5, 0, 3 / 5), (-3 / 5, 0, 3 / 5))
+    oneModal := ((1, 0, 0), 0, 0)
+    radius := 1 }
+
+theorem latT_lin : IsLinearMap ℚ latT := ⟨fun x y => by ext <;> simp [latT] <;> ring, fun c x => by ext <;> simp [latT] <;> ring⟩
+theorem latTm_lin : IsLinearMap ℚ latTm := ⟨fun x y => by ext <;> simp [latTm] <;> ring, fun c x => by ext <;> simp [latTm] <;> ring⟩
+theorem latD_lin : IsLinearMap ℚ latD := ⟨fun x y => by ext <;> simp [latD] <;> ring, fun c x => by ext <;> simp [latD] <;> ring⟩
+theorem latS_lin : IsLinearMap ℚ latS := ⟨fun x y => by ext <;> simp [latS] <;> ring, fun c x => by ext <;> simp [latS] <;> ring⟩
+theorem latL_lin : IsLinearMap ℚ latL := ⟨fun x y => by ext <;> simp [latL] <;> ring, fun c x => by ext <;> simp [latL] <;> ring⟩
+theorem latIL_lin : IsLinearMap ℚ latIL := ⟨fun x y => by ext <;> simp [latIL] <;> ring, fun c x => by ext <;> simp [latIL] <;> ring⟩
+
+theorem triple_lin {f : Q3 → Q3} (hf : IsLinearMap ℚ f) :
+    IsLinearMap ℚ (fun x : ML => ((f x.1, f x.2.1, f x.2.2) : ML)) :=
+  ⟨fun x y => by simp only [Prod.fst_add, Prod.snd_add, hf.map_add, Prod.mk_add_mk],
+   fun c x => by simp only [Prod.smul_fst, Prod.smul_snd, hf.map_smul, Prod.smul_mk]⟩
+
+/-- `d_dlon` is not the zero map on this grid, and the nodal round trip is exact -/
+example : toyLonOps.dDlon ((0, 0, 0), (1, 2, 3), (4, 5, 6)) = ((0, 0, 0), (4, 5, 6), (-1, -2, -3)) := by
+  decide +kernel
+example : toyLonOps.toModal (toyLonOps.toNodal ((1, 2, 3), (4, 5, 6), (7, 8, 9))) = ((1, 2, 3), (4, 5, 6), (7, 8, 9)) := by
+  decide +kernel
+/-- its zonal part is the three-mode toy sphere `toySWOps 1` -/
+example (a : Q3) : latT a = (toySWOps 1).toNodal a ∧ latD a = (toySWOps 1).cosLatDDlat a
+    ∧ latS a = (toySWOps 1).secLatDDlatCos2 a ∧ latL a = (toySWOps 1).laplacian a
+    ∧ latIL a = (toySWOps 1).inverseLaplacian a ∧ latTm a = (toySWOps 1).toModal a := by
+  refine ⟨rfl, rfl, rfl, ?_, ?_, rfl⟩ <;> ext <;> simp [latL, latIL, toySWOps]
+
+theorem toyLon_lin : LinLaws toyLonOps where
+  toNodal := ⟨fun x y => by
+      simp only [toyLonOps, Prod.fst_add, Prod.snd_add, latT_lin.map_add, Prod.mk_add_mk]
+      refine Prod.ext ?_ (Prod.ext ?_ (Prod.ext ?_ ?_)) <;> (simp only []; abel),
+    fun c x => by
+      simp only [toyLonOps, Prod.smul_fst, Prod.smul_snd, latT_lin.map_smul, Prod.smul_mk, smul_add, smul_sub]⟩
+  toModal := ⟨fun x y => by
+      simp only [toyLonOps, Prod.fst_add, Prod.snd_add, Prod.mk_add_mk, ← latTm_lin.map_add, ← smul_add]
+      refine Prod.ext ?_ (Prod.ext ?_ ?_) <;> simp only [] <;> congr 2 <;> abel,
+    fun c x => by
+      simp only [toyLonOps, Prod.smul_fst, Prod.smul_snd, Prod.smul_mk, ← latTm_lin.map_smul, ← smul_add, ← smul_sub,
+        smul_comm c]⟩
+  dDlon := ⟨fun x y => by simp [toyLonOps]; abel, fun c x => by simp [toyLonOps]⟩
+  cosLatDDlat := triple_lin latD_lin
+  secLatDDlatCos2 := triple_lin latS_lin
+  laplacian := triple_lin latL_lin
+  inverseLaplacian := triple_lin latIL_lin
+  clip := ⟨fun x y => rfl, fun c x => rfl⟩
+def toyLonPE : PrimitiveEquations ℚ ML NL :=
+  { ops := toyLonOps
+    vert := { boundaries := [0, 1 / 3, 1], logCenters := [-2, -1 / 3] }
+    phys := { angularVelocity := 1 / 2, g := 10, R := 1, Rvapor := 2, CpVapor := 18, kappa := 2 / 7 }
+    referenceTemperature := [3, 3]
+    orography := 0 }
+
+/-- the solid-body example embedded as the zonal part; a tracer with latitudinal structure -/
+def lonZeta : List ML := [((0, 2, 0), 0, 0), ((0, 4, 0), 0, 0)]
+def lonTv : List ML := [((-16 / 25, 0, 0), 0, 0), ((48 / 25, 0, 0), 0, 0)]
+def lonLnp : ML := ((1 / 5, 0, -1 / 2), 0, 0)
+def lonTr : List (String × List ML) := [("tracer", [((1, 1 / 2, 0), 0, 0), ((2, 0, 1 / 3), 0, 0)])]
+
+/-- the zonality hypotheses hold for the zonal state — by computation on the 12-node grid, not by `rfl` -/
+theorem lon_zonalFlow : ZonalFlow toyLonPE.ops lonZeta lonLnp := ⟨by decide +kernel, by decide +kernel⟩
+
+/-- … and they are genuine restrictions: a surface pressure with a wave-1 component violates `ZonalFlow`, and
+ a tracer with a wave-1 component violates `ZonalFlux` -/
+theorem lon_not_zonalFlow : ¬ ZonalFlow toyLonPE.ops lonZeta ((1 / 5, 0, -1 / 2), (1, 0, 0), 0) := by
+  intro h
+  exact absurd h.gradZonal (by decide +kernel)
+
+theorem lon_not_zonalFlux :
+    ¬ ZonalFlux toyLonPE lonZeta ([((1, 0, 0), (1, 0, 0), 0), ((2, 0, 0), 0, 0)].map toyLonPE.ops.toNodal) := by
+  unfold ZonalFlux
+  decide +kernel
+
+/-- `zonal_flow_steady` on the grid with longitude: all hypotheses discharged by computation -/
+theorem lon_zonal_flow_steady :
+    State.add (toyLonPE.explicitTerms (zonalState lonZeta lonTv lonLnp lonTr))
+        (toyLonPE.implicitTerms (zonalState lonZeta lonTv lonLnp lonTr))
+      = zeroTendency 2 lonTr := by
+  refine zonal_flow_steady toyLonPE toyLon_lin 2 (by decide) rfl rfl rfl lonZeta lonTv rfl rfl lonLnp _
+    (by simp [lonTr]) lon_zonalFlow ?_ ?_ ?_ ?_
+  · decide +kernel
+  · unfold ZonalFlux; decide +kernel
+  · unfold ZonalFlux; decide +kernel
   · decide +kernel
 
 end ZonalExample
